@@ -56,17 +56,19 @@ _MC = "explicit-state model checking of the implementation (exhaustive interleav
 def _mc(text):
     return {"engine": "explorer", "text": text, "note": SIM, "technique": _MC}
 CHECKS["C02"] = _mc("All interleavings of deliveries, worker replies and timers (closed exploration, fingerprint-deduplicated) of the sequential, fan-out-succeeds and single-unhandled-failure "
-    "scenario families, incl. concurrent executions, retries, time-outs, EXPRESS, a raw start event and an async child launch; M-life (one RUNNING, exactly one terminal notification, "
+    "scenario families, incl. concurrent executions, retries, time-outs, EXPRESS, a raw start event, every form of child launch (async, .sync, .sync:2, startSyncExecution, a child ending by its own time-out) and every handler scenario beside a blocked bystander execution; M-life (one RUNNING, exactly one terminal notification, "
     "frozen terminal record, record shape) after every step, liveness at every quiescent state, and the terminal result compared with the reference interpreter on every schedule.")
-CHECKS["C05"] = _mc("All interleavings (closed) of Parallel 2x1/2x2/3x1/mixed, Map over arrays of every length 0..N with every MaxConcurrency 0..length+1, Map-in-Parallel and Parallel-in-Map; "
+CHECKS["C05"] = _mc("All interleavings (closed) of Parallel 2x1/2x2/3x1/mixed, Map over arrays of every length 0..N with every MaxConcurrency 0..length+1, Map-in-Parallel and Parallel-in-Map, branches that recover through an in-branch Catch, InputPath/ResultPath on the fan-out state (incl. an empty item array); "
     "output equals the reference on every schedule, the state after the join is entered only after every branch event, each item started and requested exactly once, requests in flight <= MaxConcurrency after every broker operation.")
 CHECKS["C06"] = _mc("All interleavings (closed) of Parallel/Map shapes x failure assignments (one, both, Fail state, failing item) x {no handler, Catch, Retry, Retry+Catch} x sibling activity "
-    "(task outstanding, in a Wait, queued) x nesting; after a fan-out attempt has failed no branch of it publishes an event or issues an RPC request, exactly one terminal notification, "
+    "(task outstanding incl. the long invoke form, in a Wait / zero Wait, queued, recovering after an in-branch Catch, waiting out a Retry interval) x nesting, and a retried fan-out on the timed schedule class; after a fan-out attempt has failed no branch of it publishes an event or issues an RPC request, exactly one terminal notification, "
     "nothing appended to the history after the end, everything drained, result equals the reference.")
 CHECKS["C09"] = _mc("M-hist evaluated on the complete history after every step of every interleaving of the handler-coverage, sequential, fan-out and fan-out-failure families: numbering, "
-    "previousEventId, timestamps, ExecutionStarted, exactly one terminal event that agrees with the record and is last, entered/exited pairing and order along the transitions taken, EXPRESS stores nothing.")
+    "previousEventId, timestamps, ExecutionStarted, exactly one terminal event that agrees with the record and is last, entered/exited pairing and order along the transitions taken, EXPRESS stores nothing; "
+    "GetExecutionHistory read through the real REST front end (forwards and reverseOrder) at every point of an execution must return the stored list / exactly its reverse and leave it untouched; logging configurations, falsy inputs, reused execution names.")
 CHECKS["C11"] = _mc("M-views evaluated after every step of every interleaving of the same families: record vs last notification vs history terminal event, each status published once to '<stateMachineArn>.<status>' "
-    "in the CloudWatch shape with integer-millisecond dates while the stored record keeps epoch seconds.")
+    "in the CloudWatch shape with integer-millisecond dates while the stored record keeps epoch seconds; also over the Redis-backed stores on one instance and on two instances sharing them (every instance must answer alike), "
+    "STANDARD and EXPRESS, falsy inputs, logging configurations and an execution name used a second time.")
 CHECKS["C07"] = {
     "engine": "enumerator",
     "text": "All retrier lists / catcher lists / task outcome sequences within the tier's bounds (see evidence rule), each run through the real engine on the virtual clock (canonical schedule) "
@@ -80,23 +82,26 @@ CHECKS["C04"] = {
     "text": "Fault enumeration + explicit-state exploration: for every scenario of the crash corpus, every crash point between two atomic steps of the canonical run (plain, and with the head message of "
             "each consumed queue already in flight to the dead process) and every crash point after an individual broker operation inside a step is taken; the process is restarted with the same "
             "instance id and all interleavings of redelivered events, pending replies and timers are then explored (closed). Oracles: no execution lost; for between-step crashes the same terminal "
-            "status/output as crash-free; no correlation id requested twice. Double crashes in the thorough tier.",
+            "status/output as crash-free; no correlation id requested twice. Scenarios incl. sync children, finished branches held for the join, downtime, stale replies and fan-outs nested in fan-outs (quick: deviation bound 2 after the restart for the nested ones). Double crashes in the thorough tier.",
     "note": SIM + " A crash is modelled as the broker seeing the connection drop (unacked deliveries requeued in place, flagged redelivered) with all volatile engine state lost; the JSON store file survives.",
     "technique": "exhaustive crash-point enumeration + explicit-state model checking of the implementation after restart",
 }
 CHECKS["C10"] = {
     "engine": "explorer",
-    "text": "Explicit-state breadth-first search over store states: from the empty store, every call of a ~85-call alphabet (the nine actions x valid / each kind of invalid argument, malformed bodies) is issued in "
+    "text": "Explicit-state breadth-first search over store states: from the empty store, every call of a ~95-call alphabet (the nine actions x valid / each kind of invalid argument, malformed bodies) is issued in "
             "every reachable state to the real Quart and Flask front ends backed by the real engine (snapshot/restore of the stores; StartExecution is run to quiescence); status, __type and body compared with a "
-            "two-map reference, stores compared before/after each error answer and with the reference after each success. Quick: first 60 distinct states per front end; thorough: to the fixed point.",
+            "two-map reference, stores compared before/after each error answer and with the reference after each success. Quick: first 160 distinct states per front end; thorough: to the fixed point. Plus 12 pairs of overlapping "
+            "requests on the asyncio front end, the two handlers stepped one ready event-loop callback at a time through every interleaving within a deviation bound (1 quick / 2 thorough) of the loop's own order: answers and stores must "
+            "equal one of the two sequential orders.",
     "note": "Trusted base: the reference map in checks/c10.py, Quart/Flask test clients in place of HTTP, simulated broker for StartExecution. " + SIM,
     "technique": "explicit-state model checking (BFS over reachable store states with a reference-model oracle)",
 }
 CHECKS["C16"] = {
     "engine": "enumerator",
     "text": "Exhaustive window enumeration: for each limit L every size L-2..L+2 (plus tiny and 2L) at every enforcement point (API input for StartExecution and StartSyncExecution, callback output, "
-            "Pass / Map / Parallel output with Next and End, task reply with Next and End, definition in Create and Update, names in Create and StartExecution) through the real API and engine, and a looping "
-            "machine against the real 25000-event history limit; accepted iff size <= L with the documented error otherwise.",
+            "Pass / Map / Parallel output with Next and End, task reply with Next, with End and thrown away by ResultPath null (short and invoke form), callback message published straight to the reply queue (kept and thrown away), "
+            "definition in Create and Update, names in Create and StartExecution) through the real API and engine, and a looping machine and an endlessly retried Task against the real 25000-event history limit; accepted iff size <= L "
+            "with the documented error otherwise.",
     "note": ENUM + " " + SIM + " Sizes are measured on bare JSON strings so that every serializer agrees on the text length.",
     "technique": "exhaustive boundary-window enumeration against the documented quota table (bounded model checking, explicit enumeration)",
 }
@@ -104,7 +109,8 @@ CHECKS["C17"] = {
     "engine": "enumerator",
     "text": "Exhaustive enumeration: create_arn/parse_arn over all part combinations of small pools; every string up to the tier's length over letters, digits, ARN separators and every rejected character through "
             "valid_name, each accepted name checked for round-tripping state-machine / execution ARNs (incl. the engine's split-at-last-colon derivation); machines and executions named from the accepted set run "
-            "through the real API and engine (STANDARD and EXPRESS) with every derived identifier compared; names that bypass the validator (child launch, raw event).",
+            "through the real API and engine (STANDARD and EXPRESS) with every derived identifier compared; names that bypass the validator (child launch, raw event, other Resource regions); the derivations from the execution ARN after a crash + "
+            "restart (record rebuilt from a redelivered event: top-level Task, Task in a branch, Task that then fails or times out) and for record-less executions: record, notifications, Describe*, ListExecutions by machine.",
     "note": ENUM + " " + SIM,
     "technique": "exhaustive small-scope enumeration of names/ARN parts with round-trip and differential oracles",
 }
@@ -123,9 +129,10 @@ CHECKS["C15"] = _mc("All interleavings (closed) of parent/child scenarios: async
     "is terminal, documented field names and Output typing, States.TaskFailed with the child's error, token results / API answers, cancellation of what the child is blocked on; M-life / M-carry / M-drain ride along.")
 CHECKS["C18"] = {
     "engine": "enumerator+explorer",
-    "text": "Exhaustive mutation enumeration: all single mutations (drop / rename field, retarget Next / Default / StartAt, retag Type, duplicate a state name across nesting levels, every wrong JSON type for every value) "
+    "text": "Exhaustive mutation enumeration: all single mutations (drop / rename field, retarget Next / Default / StartAt, retag Type, duplicate a state name across and beside nesting levels, every wrong JSON type and the empty value of its own type for every member) "
             "of 12 well-formed seed machines plus a family of small JSON values go through the real StateLint.validate (must return a problem list, never raise); every mutant with no problems is run by the real engine "
-            "for 3 inputs x {task ok, task error} and must become terminal without an 'Illegal State Machine' failure or an escaping exception; mutants, JSON values as definitions and malformed event bodies are placed next "
+            "for 3 inputs x {task ok, task error} and must become terminal without an 'Illegal State Machine' failure or an escaping exception; every mutant the validator refuses is run as well (nothing may escape a callback, the engine must go quiet - "
+            "a machine without a cycle may not still be running after 3000 steps - and the execution ends at most once); mutants, JSON values as definitions and malformed event bodies are placed next "
             "to two healthy executions and explored with deviation bound 2 (healthy results equal the reference, poison events acknowledged, nothing escapes).",
     "note": ENUM + " " + SIM,
     "technique": "exhaustive mutation enumeration + deviation-bounded explicit-state exploration of the implementation",
@@ -134,7 +141,7 @@ CHECKS["C20"] = {
     "engine": "explorer",
     "text": "Explicit-state breadth-first search per store kind (JSONStore, SimpleStore, RedisDictStore, RedisListStore over the simulated server): all sequences of set / nested update or append through the returned "
             "view / get / get_cached_view / delete / in / iterate / len / set_ttl / reopen / corrupt-file reopen / 'deliver one queued invalidation to client c' over 3 keys x 3 values, two clients with cache capacity 2 "
-            "for the Redis kinds, to a fixed point of the canonical state; every placement of every invalidation between operations is a transition. Oracle: a plain dict; a cached read must equal the backend once no "
+            "for the Redis kinds, to a fixed point of the canonical state; every placement of every invalidation (single-key and coalesced) between operations is a transition; for the file / in-memory stores the operation path is replayed, with updates in place of what the store handed out and write-backs of the same / an equal value. Oracle: a plain dict; a cached read must equal the backend once no "
             "invalidation for that client is queued; cache size <= capacity; TTL set; data survives a real stop()/re-create; an unreadable file starts empty.",
     "note": "Trusted base: the simulated redis server / pottery containers (cannot be cross-checked against the real libraries offline) and operation-granularity placement of the invalidation handler (the property's quantifier).",
     "technique": "explicit-state model checking (BFS over operation sequences with state de-duplication, reference-model oracle)",
